@@ -1,4 +1,5 @@
 SETUP = ('/venv/bin/python -c "import hypothesis" 2>/dev/null || /venv/bin/pip install --no-index --find-links /opt/veriftools/wheels hypothesis; '
+         '/venv/bin/python -c "import sys; sys.path.append(\'.deps\'); import atheris" 2>/dev/null || /venv/bin/pip install -q --no-index --find-links /opt/veriftools/wheels --target .deps atheris; '
          'mkdir -p evidence replays')
 HOOKS = {
     'guard': 'PYWORKERS_VERIF',
@@ -20,7 +21,7 @@ NOTES = 'Runner: ./check <ID> --tier quick|thorough [--replay f]; exit 0 held, 1
 CHECKS = {
     'C10': {
         'engine': 'WIRE', 'level': 'exploration', 'design_ref': 'DESIGN.md 3.3, 4 (C10)',
-        'technique': 'property-based testing (Hypothesis) + exhaustive enumeration of short streams; round-trip and truncation oracle over a scripted socket',
+        'technique': 'property-based testing (Hypothesis) + exhaustive enumeration of short streams; round-trip and truncation oracle over a scripted socket + coverage-guided fuzzing stage (atheris/libFuzzer mutating the byte string the same Hypothesis strategy draws from, pyworkers instrumented, same oracle)',
         'text': 'Generated message sequences are written by the real send_msg and read back by the real recv_msg through a scripted socket that '
                 'cuts the stream according to a generated plan; every composition of the 8-byte and 16-byte streams and every truncation offset '
                 'of them is enumerated, longer streams get boundary-relative cuts, payload sizes around multiples of 64 KiB are enumerated, the stream may end by FIN, RST, ETIMEDOUT or ECONNABORTED; the sending side is additionally run over transports whose send/sendmsg accept only q bytes per call (same byte stream required). The oracle is the round trip plus "truncation => ConnectionClosedError, '
@@ -30,7 +31,7 @@ CHECKS = {
 }
 CHECKS['C07'] = {
     'engine': 'POOLSIM', 'level': 'exploration', 'design_ref': 'DESIGN.md 3.2, 4 (C07)',
-    'technique': 'property-based testing: Hypothesis-generated schedule tapes + exhaustive DFS of all schedules of small pool configurations, reference multiset oracle',
+    'technique': 'property-based testing: Hypothesis-generated schedule tapes + exhaustive DFS of all schedules of small pool configurations, reference multiset oracle + coverage-guided fuzzing stage (atheris/libFuzzer mutating the byte string the same Hypothesis strategy draws from, pyworkers instrumented, same oracle)',
     'text': 'The real Pool.run is executed against simulated workers whose every progress/death/ready-order decision is taken from a generated tape; '
             'all schedules of small configurations (<=3 workers, <=3 inputs, 1 kill; also with equal input items, a transient enqueue failure, a dead worker still reporting is_alive()) are enumerated exhaustively, larger ones are sampled. Oracle: the run '
             'ends by return or PoolError (no internal error, no deadlock, no livelock) and, with retry, the results are exactly the multiset f(inputs).',
@@ -39,7 +40,7 @@ CHECKS['C07'] = {
 }
 CHECKS['C08'] = {
     'engine': 'POOLSIM', 'level': 'exploration', 'design_ref': 'DESIGN.md 3.2, 4 (C08)',
-    'technique': 'property-based testing over schedule tapes with an event-log oracle (who was handed what, who answered, who died)',
+    'technique': 'property-based testing over schedule tapes with an event-log oracle (who was handed what, who answered, who died) + coverage-guided fuzzing stage (atheris/libFuzzer mutating the byte string the same Hypothesis strategy draws from, pyworkers instrumented, same oracle)',
     'text': 'Same simulated schedule space as C07 with retry and return_results on/off. From the scheduler log the oracle decides: PoolError only when no live '
             'worker would take the unfinished inputs; partial/returned results are genuine and at most one per input; with retry off every missing input was '
             'handed (or being handed) to a worker that died without answering it; return_results=False returns None.',
@@ -50,7 +51,7 @@ ENGINES.append({'name': 'GRAPH', 'path': 'harness/graphs.py', 'serves_properties
                                   '__getstate__/__setstate__ call log; differential oracle against the standard pickle module'})
 CHECKS['C13'] = {
     'engine': 'GRAPH', 'level': 'exploration', 'design_ref': 'DESIGN.md 3.4, 4 (C13)',
-    'technique': 'property-based differential testing against the standard pickle module over generated object graphs; enumerated class-definition programs for the inconsistency rule',
+    'technique': 'property-based differential testing against the standard pickle module over generated object graphs; enumerated class-definition programs for the inconsistency rule + coverage-guided fuzzing stage (atheris/libFuzzer mutating the byte string the same Hypothesis strategy draws from, pyworkers instrumented, same oracle)',
     'text': 'Generated graphs (plain classes, stdlib values, sharing, cycles) are round-tripped through remote_pickle and through pickle and compared by a '
             'canonical form that captures sharing; opt-in graphs are checked with remote=False; pickle/copy/deepcopy/ForkingPickler are checked to never see '
             'the flag after remote pickling; all 1-3 level inheritance chains over {no/plain/remote/**kwargs __getstate__, __reduce__} are enumerated '
@@ -59,7 +60,7 @@ CHECKS['C13'] = {
 }
 CHECKS['C14'] = {
     'engine': 'GRAPH', 'level': 'exploration', 'design_ref': 'DESIGN.md 3.4, 4 (C14)',
-    'technique': 'property-based testing with a twin-class reference model evaluated by the standard pickle module; call-log invariant (exactly one __getstate__(remote=True))',
+    'technique': 'property-based testing with a twin-class reference model evaluated by the standard pickle module; call-log invariant (exactly one __getstate__(remote=True)) + coverage-guided fuzzing stage (atheris/libFuzzer mutating the byte string the same Hypothesis strategy draws from, pyworkers instrumented, same oracle)',
     'text': 'Graphs with 0-10 opt-in instances from a generated grammar plus an enumerated shape grammar (siblings 1-3, containers, chains, shared, cycles) are dumped '
             'and loaded; the oracle is the call log (one remote __getstate__ per serialised opt-in instance) and equality of canonical shape with the standard '
             'round trip of a twin graph whose plain classes return the remote state.',
@@ -67,7 +68,7 @@ CHECKS['C14'] = {
 }
 CHECKS['C15'] = {
     'engine': 'GRAPH', 'level': 'exploration', 'design_ref': 'DESIGN.md 3.4, 4 (C15)',
-    'technique': 'property-based testing against reference patch semantics (twin graph + standard pickle), metamorphic fresh-thread comparison, barrier-forced concurrent loads',
+    'technique': 'property-based testing against reference patch semantics (twin graph + standard pickle), metamorphic fresh-thread comparison, barrier-forced concurrent loads + coverage-guided fuzzing stage (atheris/libFuzzer mutating the byte string the same Hypothesis strategy draws from, pyworkers instrumented, same oracle)',
     'text': 'Patch dictionaries derived from the generated graph are applied by remote_pickle.loads and by a reference model; every node of the result must '
             'canonicalise as the reference says (so no other object is touched); the same call after a history of plain/patched/truncated/raising loads must equal '
             'the fresh-thread result; 2-4 threads are held inside their loads simultaneously with distinct patch values.',
